@@ -66,4 +66,172 @@ theorem DigitRun.head_digit {d : Bytes} (h : DigitRun d) : ∃ c rest, d = c :: 
   | nil => exact absurd rfl hne
   | cons c rest => exact ⟨c, rest, rfl, hd c (by simp)⟩
 
+/-! ### digit strings as numbers: `cmpDigits` (dpkg's and rpm's numeric comparison) is the numeric order -/
+
+/-- the number a digit string denotes (big-endian decimal) -/
+def decVal : Bytes → Nat
+  | [] => 0
+  | c :: t => (c.toNat - 48) * 10 ^ t.length + decVal t
+
+theorem isDigit_bounds (c : UInt8) (h : isDigit c = true) : 48 ≤ c.toNat ∧ c.toNat ≤ 57 := by
+  unfold isDigit at h
+  simp only [Bool.and_eq_true, decide_eq_true_eq] at h
+  exact ⟨by simpa [UInt8.le_iff_toNat_le] using h.1, by simpa [UInt8.le_iff_toNat_le] using h.2⟩
+
+theorem decVal_lt_pow (d : Bytes) (hd : ∀ x ∈ d, isDigit x = true) : decVal d < 10 ^ d.length := by
+  induction d with
+  | nil => simp [decVal]
+  | cons c t ih =>
+    have hb := isDigit_bounds c (hd c (by simp))
+    have := ih (fun x hx => hd x (List.mem_cons_of_mem _ hx))
+    simp only [decVal, List.length_cons, Nat.pow_succ]
+    have h9 : (c.toNat - 48) * 10 ^ t.length ≤ 9 * 10 ^ t.length := Nat.mul_le_mul_right _ (by omega)
+    omega
+
+theorem decVal_dropZeros (d : Bytes) : decVal (d.dropWhile (· == 48)) = decVal d := by
+  induction d with
+  | nil => rfl
+  | cons c t ih =>
+    simp only [List.dropWhile_cons]
+    split
+    · rename_i h
+      have : c = 48 := by simpa using h
+      subst this
+      rw [ih]; simp [decVal]
+    · rfl
+
+/-- a digit string without leading zero is at least 10^(length-1) -/
+theorem pow_le_decVal (c : UInt8) (t : Bytes) (hc : isDigit c = true) (h0 : c ≠ 48) :
+    10 ^ t.length ≤ decVal (c :: t) := by
+  have hb := isDigit_bounds c hc
+  have : c.toNat ≠ 48 := by
+    intro e; apply h0; exact UInt8.toNat_inj.mp (by simpa using e)
+  simp only [decVal]
+  have : 1 * 10 ^ t.length ≤ (c.toNat - 48) * 10 ^ t.length := Nat.mul_le_mul_right _ (by omega)
+  omega
+
+/-- first difference of two equally long digit strings decides the numeric order -/
+theorem find_first_diff (a b : Bytes) (hl : a.length = b.length)
+    (ha : ∀ x ∈ a, isDigit x = true) (hb : ∀ x ∈ b, isDigit x = true) :
+    match (a.zip b).find? (fun p => p.1 ≠ p.2) with
+    | some (x, y) => (x.toNat < y.toNat ∧ decVal a < decVal b) ∨ (y.toNat < x.toNat ∧ decVal b < decVal a)
+    | none => a = b := by
+  induction a generalizing b with
+  | nil => cases b with
+    | nil => simp
+    | cons _ _ => simp at hl
+  | cons x xs ih =>
+    cases b with
+    | nil => simp at hl
+    | cons y ys =>
+      have hl' : xs.length = ys.length := by simpa using hl
+      have hxa := ha x (by simp)
+      have hyb := hb y (by simp)
+      have bx := isDigit_bounds x hxa
+      have by' := isDigit_bounds y hyb
+      have hxs := decVal_lt_pow xs (fun z hz => ha z (List.mem_cons_of_mem _ hz))
+      have hys := decVal_lt_pow ys (fun z hz => hb z (List.mem_cons_of_mem _ hz))
+      simp only [List.zip_cons_cons, List.find?_cons]
+      by_cases hxy : x = y
+      · subst hxy
+        simp only [ne_eq, not_true_eq_false, decide_false]
+        have := ih ys hl' (fun z hz => ha z (List.mem_cons_of_mem _ hz)) (fun z hz => hb z (List.mem_cons_of_mem _ hz))
+        split at this
+        · rename_i p q heq
+          simp only [heq]
+          simp only [decVal, hl']
+          rcases this with ⟨h1, h2⟩ | ⟨h1, h2⟩
+          · left; exact ⟨h1, by omega⟩
+          · right; exact ⟨h1, by omega⟩
+        · rename_i heq
+          simp only [heq]
+          rw [this]
+      · have hne : x.toNat ≠ y.toNat := fun e => hxy (UInt8.toNat_inj.mp e)
+        simp only [ne_eq, hxy, not_false_eq_true, decide_true]
+        simp only [decVal, hl'] at *
+        rcases Nat.lt_or_gt_of_ne hne with h | h
+        · left
+          refine ⟨h, ?_⟩
+          have : (x.toNat - 48 + 1) * 10 ^ ys.length ≤ (y.toNat - 48) * 10 ^ ys.length :=
+            Nat.mul_le_mul_right _ (by omega)
+          rw [Nat.add_mul] at this
+          omega
+        · right
+          refine ⟨h, ?_⟩
+          have : (y.toNat - 48 + 1) * 10 ^ ys.length ≤ (x.toNat - 48) * 10 ^ ys.length :=
+            Nat.mul_le_mul_right _ (by omega)
+          rw [Nat.add_mul] at this
+          omega
+
+theorem dropZeros_digits (d : Bytes) (hd : ∀ x ∈ d, isDigit x = true) :
+    ∀ x ∈ d.dropWhile (· == 48), isDigit x = true :=
+  fun x hx => hd x (List.dropWhile_sublist _ |>.subset hx)
+
+theorem dropZeros_head (d : Bytes) : d.dropWhile (· == 48) = [] ∨
+    ∃ c t, d.dropWhile (· == 48) = c :: t ∧ c ≠ 48 := by
+  induction d with
+  | nil => left; rfl
+  | cons c t ih =>
+    simp only [List.dropWhile_cons]
+    split
+    · exact ih
+    · rename_i h
+      right; exact ⟨c, t, rfl, by simpa using h⟩
+
+theorem decVal_lt_of_length_lt (a b : Bytes) (ha : ∀ x ∈ a, isDigit x = true) (hb : ∀ x ∈ b, isDigit x = true)
+    (hb0 : ∃ c t, b = c :: t ∧ c ≠ 48) (hl : a.length < b.length) : decVal a < decVal b := by
+  obtain ⟨c, t, rfl, hc⟩ := hb0
+  have h1 := decVal_lt_pow a ha
+  have h2 := pow_le_decVal c t (hb c (by simp)) hc
+  have : 10 ^ a.length ≤ 10 ^ t.length := Nat.pow_le_pow_right (by omega) (by simp at hl; omega)
+  omega
+
+theorem cmpDigits_core (a b : Bytes) (ha : ∀ x ∈ a, isDigit x = true) (hb : ∀ x ∈ b, isDigit x = true)
+    (ha0 : a = [] ∨ ∃ c t, a = c :: t ∧ c ≠ 48) (hb0 : b = [] ∨ ∃ c t, b = c :: t ∧ c ≠ 48) :
+    let r : Int := if a.length > b.length then 1 else if a.length < b.length then -1
+      else match (a.zip b).find? (fun p => p.1 ≠ p.2) with
+        | some (x, y) => (x.toNat : Int) - y.toNat
+        | none => 0
+    (r < 0 ↔ decVal a < decVal b) ∧ (r = 0 ↔ decVal a = decVal b) ∧ (0 < r ↔ decVal b < decVal a) := by
+  intro r
+  by_cases h1 : a.length > b.length
+  · have hr : r = 1 := by simp [r, h1]
+    have hane : ∃ c t, a = c :: t ∧ c ≠ 48 := by
+      rcases ha0 with e | e
+      · subst e; simp at h1
+      · exact e
+    have := decVal_lt_of_length_lt b a hb ha hane h1
+    rw [hr]; omega
+  · by_cases h2 : a.length < b.length
+    · have hr : r = -1 := by simp [r, h1, h2]
+      have hbne : ∃ c t, b = c :: t ∧ c ≠ 48 := by
+        rcases hb0 with e | e
+        · subst e; simp at h2
+        · exact e
+      have := decVal_lt_of_length_lt a b ha hb hbne h2
+      rw [hr]; omega
+    · have hl : a.length = b.length := by omega
+      have hf := find_first_diff a b hl ha hb
+      have hr : r = match (a.zip b).find? (fun p => p.1 ≠ p.2) with
+        | some (x, y) => (x.toNat : Int) - y.toNat
+        | none => 0 := by simp [r, h1, h2]
+      rw [hr]
+      split at hf
+      · rename_i x y heq
+        have hlt : ∀ p q : Int, p - q < 0 ↔ p < q := fun p q => by omega
+        rw [Int.sub_pos, Int.sub_eq_zero, hlt]
+        rcases hf with ⟨h, h'⟩ | ⟨h, h'⟩ <;> omega
+      · rename_i heq
+        subst hf
+        simp
+
+/-- **`cmpDigits` is the numeric order**: for all digit strings (leading zeros allowed, any length) its sign
+    is the sign of the difference of the numbers they denote -/
+theorem cmpDigits_numeric (a b : Bytes) (ha : ∀ x ∈ a, isDigit x = true) (hb : ∀ x ∈ b, isDigit x = true) :
+    (cmpDigits a b < 0 ↔ decVal a < decVal b) ∧ (cmpDigits a b = 0 ↔ decVal a = decVal b) ∧
+    (0 < cmpDigits a b ↔ decVal b < decVal a) := by
+  have h := cmpDigits_core _ _ (dropZeros_digits a ha) (dropZeros_digits b hb) (dropZeros_head a) (dropZeros_head b)
+  rw [decVal_dropZeros a, decVal_dropZeros b] at h
+  exact h
+
 end Nfpm
